@@ -33,7 +33,7 @@ LEVEL_NOTE = ('Trusted: Coq kernel, gen_tables.py, extraction + OCaml driver, th
               'the bot has left (ALate) and two networks in one process (C10_two_networks).  NOT modelled / outside the claim: (a) ISUPPORT (IrcState.do005) -- the model '
               'uses the default CHANTYPES/CHANNELLEN, rfc1459 case folding and the static mode-argument tables; on a network with CASEMAPPING=ascii, or with PREFIX / CHANMODES '
               'letters outside those tables, the implementation diverges from the server (findings C10.F12, C10.F13, checked by hand-written expectations only); '
-              '(b) invite/exception lists: +I is filed as a single-valued mode, +e / +q are ignored; (c) WHOX 354 and server-originated MODE/KICK/TOPIC are modelled in the bot '
+              '(b) invite-exception / ban-exception / quiet lists (+I +e +q) are deliberately not recorded by the bot (nor by the view); (c) WHOX 354 and server-originated MODE/KICK/TOPIC are modelled in the bot '
               'and exercised by the raw stream and two expectations, but the reference server never emits them; (d) within one join burst the messages are delivered atomically '
               '(no third-party event between JOIN and the 353/324/329/367/352 of the same channel), created is one constant, topic metadata (333), BATCH / netsplit batches, '
               'account/away tracking and IrcState.copy/pickle are not looked at; (e) non-canonical int mode parameters (finding F10c) and NAMES without multi-prefix are outside dom.')
@@ -270,10 +270,12 @@ def gen_history(rng, trig):
         elif r < 0.74:
             chgs = []
             for _ in range(rng.choice([1, 1, 2, 3, 4])):
-                f = rng.choice('oooovvhhbbklntsmip')
+                f = rng.choice('oooovvhhbbklntsmipIIeq')
                 plus = rng.random() < 0.6
                 if f in 'ohv':
                     arg = nick()
+                elif f in 'Ieq':
+                    arg = sp(rng.choice(['inv!*@ok.host', '*!*@Friend[1]', '$a:acct']))
                 elif f == 'b':
                     arg = sp(rng.choice(['*!*@bad.host', 'Evil[1]!*@*', '*!~x@*']))
                 elif f == 'k':
@@ -719,6 +721,9 @@ def run_expect(inp):
 
 # ---------------------------------------------------------------- corpus
 CORPUS = [
+    # old witness of finding C10.F14 (repaired): +I was filed as ONE value and -I of any mask removed it
+    {'op': 'hist', 'mp': True, 'uh': False, 'acts': [['join', 'test', ['#a']], ['mode', 'test', '#a', [[True, 'I', 'm1!*@*']]], ['mode', 'test', '#a', [[True, 'I', 'm2!*@*'], [True, 'e', 'x!*@*'], [True, 'q', 'y!*@*']]],
+                                                    ['mode', 'test', '#a', [[False, 'I', 'm1!*@*'], [True, 'n', None], [False, 'q', 'y!*@*'], [True, 'k', 'key']]]]},
     # old witness of finding C10.F11 (repaired): replies in flight after the bot was kicked / parted re-created the channel
     {'op': 'hist', 'mp': True, 'uh': False, 'acts': [['connect', 'op', 'u', 'h'], ['join', 'op', ['#a']], ['mode', 'op', '#a', [[True, 'n', None], [True, 't', None]]],
                                                     ['join', 'test', ['#a']], ['kick', 'op', '#a', ['test']], ['late', '#a']]},
